@@ -5,6 +5,7 @@ the Coq literals small; model and implementation are compared for EACH run):
   {"req":   a structural map request (harness/mapsym.py format; its "storage" entry is ignored here),
    "gens":  [[position in req.funcs, ...], ...]   generation structure of the REAL pipeline (submission order),
    "runs":  [{"pis":  [[slot, ...], ...]           one execution order per generation (controlled executor),
+              "eager": [[slot, ...], ...]          optional: slots that start at submission time (a prefix of pis),
               "stor": {function name: storage id}, "stor_form": "str" | "each" | "default",
               "exec": "ctl" | "thread" | "process" | "default", "exec_form": "single" | "each" | "default",
               "entry": "map" | "async", "seed": int (per-call delays in the real-pool modes),
@@ -67,8 +68,9 @@ ASSUMPTIONS = [
     "are not modelled (sampled by the real thread/process pool runs with injected delays)",
     "the manager process behind shared_memory_dict, pickling of tasks/results, the file system and OS scheduling are "
     "not modelled (sampled by the real-pool runs)",
-    "tasks that start while later tasks of the same generation are still being submitted are not modelled separately "
-    "(the controlled executor starts a batch at the first Future.result()/add_done_callback of the generation)",
+    "a task that starts while later tasks of its generation are still being submitted is modelled as a task that runs "
+    "first (the controlled executor's `eager` slots and the real pools exercise this interleaving with the parent's "
+    "submission code)",
     "fresh run folder (no existing results: args.existing = []); resume is C05",
     "user functions are deterministic and return arrays of the declared internal shape",
     "generation structure and order inside a generation are taken from the real pipeline (networkx) and validated as a "
@@ -86,55 +88,71 @@ STORAGES = ("dict", "file_array", "shared_memory_dict")
 
 # ------------------------------------------------------------------ controlled executor
 class Sched:
-    """Collects submitted tasks; runs the pending batch in the order given for it when a result is first needed."""
+    """Collects submitted tasks.  Slots listed in `eager` (per generation) start as soon as they are submitted (while
+    later tasks of the generation are still being submitted); the others run, in the order given for the batch, when
+    a result is first needed."""
 
-    def __init__(self, pis):
-        self.pending = []
+    def __init__(self, pis, eager=()):
+        self.cur = []
         self.pis = list(pis)
+        self.eager = [set(e) for e in eager]
         self.batches = []
-        self.in_batch = False
+        self.in_task = False
 
-    def run_batch(self):
-        if not self.pending or self.in_batch:
+    def _run(self, entry):
+        fut, fn, args, kwargs = entry[:4]
+        entry[4] = True
+        self.in_task = True
+        try:
+            r = fn(*args, **kwargs)
+        except BaseException as e:  # noqa: BLE001
+            Future.set_exception(fut, e)
+        else:
+            Future.set_result(fut, r)
+        finally:
+            self.in_task = False
+
+    def submit(self, fut, fn, args, kwargs):
+        fut._batch = len(self.batches)
+        slot = len(self.cur)
+        entry = [fut, fn, args, kwargs, False]
+        self.cur.append(entry)
+        g = len(self.batches)
+        if g < len(self.eager) and slot in self.eager[g]:
+            self._run(entry)
+
+    def run_batch(self, fut):
+        """The parent asks for `fut`: if it belongs to the open batch, the submission of that generation is over."""
+        if fut._batch != len(self.batches) or not self.cur or self.in_task:
             return
-        batch, self.pending = self.pending, []
-        pi = self.pis.pop(0) if self.pis else []
+        batch, self.cur = self.cur, []
+        g = len(self.batches)
+        pi = self.pis[g] if g < len(self.pis) else []
         n = len(batch)
         if sorted(pi) != list(range(n)):     # not a permutation of the slots: submission order (as Model/ParGen.order)
             pi = list(range(n))
         self.batches.append(n)
-        self.in_batch = True
-        try:
-            for slot in pi:
-                fut, fn, args, kwargs = batch[slot]
-                try:
-                    r = fn(*args, **kwargs)
-                except BaseException as e:  # noqa: BLE001
-                    Future.set_exception(fut, e)
-                else:
-                    Future.set_result(fut, r)
-        finally:
-            self.in_batch = False
+        for slot in pi:
+            if not batch[slot][4]:
+                self._run(batch[slot])
 
 
 class LazyFuture(Future):
     def __init__(self, sched):
         super().__init__()
         self._sched = sched
+        self._batch = -1
 
     def result(self, timeout=None):
-        if not self.done():
-            self._sched.run_batch()
+        self._sched.run_batch(self)
         return super().result(timeout)
 
     def exception(self, timeout=None):
-        if not self.done():
-            self._sched.run_batch()
+        self._sched.run_batch(self)
         return super().exception(timeout)
 
     def add_done_callback(self, fn):      # asyncio.wrap_future (map_async) never calls result() on a pending future
-        if not self.done():
-            self._sched.run_batch()
+        self._sched.run_batch(self)
         return super().add_done_callback(fn)
 
 
@@ -144,7 +162,7 @@ class CtlExecutor(Executor):
 
     def submit(self, fn, /, *args, **kwargs):
         f = LazyFuture(self.sched)
-        self.sched.pending.append((f, fn, args, kwargs))
+        self.sched.submit(f, fn, args, kwargs)
         return f
 
 
@@ -329,9 +347,9 @@ def _run(c, run):
         created = []
         try:
             if mode == "ctl":
-                sched = Sched(run["pis"])
+                sched = Sched(run["pis"], run.get("eager") or ())
                 ex, _ = executor_arg(req, run, lambda: CtlExecutor(sched))
-                with DumpRecorder(lambda: sched.in_batch) as rec:
+                with DumpRecorder(lambda: sched.in_task) as rec:
                     r = _call_map(p, req, run, d, ex)
                 return [_values(req, r), log.read(), rec.obs(req, r)]
             if mode == "thread":
@@ -512,6 +530,19 @@ def generate(rng, tier, mult):
                 pis[g] = perm
                 runs.append(run(pis, kind0 if rng.random() < 0.7 else rng.choice(sweep_kinds), "ctl",
                                 "map" if rng.random() < 0.75 else "async"))
+        # tasks that start while the rest of their generation is still being submitted (effective order: the
+        # eager slots in submission order, then the others as permuted)
+        for _ in range(2 if not thorough else 4):
+            pis, eager = [], []
+            for n in sizes:
+                e = sorted(rng.sample(range(n), rng.randint(0, n)))
+                rest = [s_ for s_ in range(n) if s_ not in e]
+                rng.shuffle(rest)
+                eager.append(e)
+                pis.append(e + rest)
+            r_ = run(pis, rng.choice(sweep_kinds), "ctl", rng.choice(["map", "async"]))
+            r_["eager"] = eager
+            runs.append(r_)
         # every storage with all generations permuted, both entry points
         for st in KINDS:
             runs.append(run(_random_pis(rng, sizes), st, "ctl", rng.choice(["map", "async"])))
@@ -557,7 +588,7 @@ def nontrivial_key(c):
     return ([mapsym.spec_str(f.get("spec")) for f in c["req"]["funcs"]],
             [v["sh"] if isinstance(v, dict) else 0 for _, v in c["req"]["inputs"]],
             [[sorted(r["stor"].items()), r["stor_form"], r["exec"], r["exec_form"], r["entry"], r["pis"],
-              r.get("folder", True)] for r in c["runs"]])
+              r.get("folder", True), r.get("eager")] for r in c["runs"]])
 
 
 def _bucket(n):
@@ -581,6 +612,8 @@ def distribution(c):
         d["has exec_form " + k] = "yes"
     for k in sorted({r["stor_form"] for r in runs}):
         d["has stor_form " + k] = "yes"
+    if any(any(r.get("eager") or []) for r in runs):
+        d["has eager starts"] = "yes"
     if any(not r.get("folder", True) for r in runs):
         d["has run_folder=None"] = "yes"
     return d
